@@ -9,6 +9,7 @@ import (
 	"net/http"
 	"net/http/httputil"
 	"strings"
+	"time"
 
 	"github.com/fatedier/frp/verif"
 )
@@ -479,4 +480,87 @@ func verif_Rewrite(r *httputil.ProxyRequest) {
 		verif.Ensures(r.Out.URL.Host == r.Out.Host, "no_route_no_rewrite")
 	}
 	verif.Ensures(r.Out.URL.Scheme == "http", "plain_http_to_backend")
+}
+
+// ---------------------------------------------------------------- C02: what the reverse proxy changes, and nothing else
+
+// Rewrite hook, the request side of C02: method, path, query and body of the
+// outgoing request are left as they are; the forwarded-for chain of the
+// incoming request is carried over before the proxy appends the user's address
+// (SetXForwarded); every configured request header is set (loop body check for
+// an arbitrary configured header).
+//
+//verif:contract ~/pkg/util/vhost.NewHTTPReverseProxy$1
+//verif:props C02
+//verif:kinds post,loop,pre
+func verif_Rewrite_preserves(r *httputil.ProxyRequest) {
+	verif.Requires(r.Out.Header != nil && r.In.Header != nil && r.Out.URL != nil, "requests_have_header_maps")
+	method0, path0, query0, body0 := r.Out.Method, r.Out.URL.Path, r.Out.URL.RawQuery, r.Out.Body
+	verif.ResetEvents()
+	verif.CallTarget(r)
+	verif.Ensures(r.Out.Method == method0 && r.Out.URL.Path == path0 && r.Out.URL.RawQuery == query0 && verif.Same(r.Out.Body, body0), "method_path_query_body_untouched")
+	verif.Ensures(verif.Called("ProxyRequest).SetXForwarded"), "users_address_appended_to_forwarded_for")
+}
+
+//verif:loopbody ~/pkg/util/vhost.NewHTTPReverseProxy$1 1 check=verifSetsRequestHeader args=k,v
+func verifSetsRequestHeader(k, v string) bool {
+	return verif.CalledWithInIter("Header).Set", 1, k) && verif.CalledWithInIter("Header).Set", 2, v)
+}
+
+// ModifyResponse hook, the response side: every configured response header is
+// set on the backend's response (loop body check); status and body are not
+// touched; the hook never fails the response.
+//
+//verif:assume-typeassert ~/pkg/util/vhost.NewHTTPReverseProxy$2
+//verif:contract ~/pkg/util/vhost.NewHTTPReverseProxy$2
+//verif:props C02
+//verif:kinds post,loop,pre
+func verif_ModifyResponse(r *http.Response) {
+	verif.Requires(r.Request != nil && r.Header != nil, "response_of_a_request")
+	status0, body0 := r.StatusCode, r.Body
+	verif.ResetEvents()
+	err := verif.CallTargetR[error](r)
+	verif.Ensures(err == nil, "never_fails_the_response")
+	verif.Ensures(r.StatusCode == status0 && verif.Same(r.Body, body0), "status_and_body_untouched")
+}
+
+//verif:loopbody ~/pkg/util/vhost.NewHTTPReverseProxy$2 1 check=verifSetsResponseHeader args=k,v
+func verifSetsResponseHeader(k, v string) bool {
+	return verif.CalledWithInIter("Header).Set", 1, k) && verif.CalledWithInIter("Header).Set", 2, v)
+}
+
+// ErrorHandler: "if the backend is unreachable or does not send response
+// headers within the configured timeout the user gets the not-found page or a
+// gateway-timeout answer": a timeout error is answered with 504 and nothing
+// else; every other failure with 404 and the not-found page.
+//
+//verif:contract ~/pkg/util/vhost.NewHTTPReverseProxy$5
+//verif:props C02
+func verif_ErrorHandler(rw http.ResponseWriter, req *http.Request, err error) {
+	verif.Requires(req != nil, "request_present")
+	ne, isNet := err.(net.Error)
+	verif.ResetEvents()
+	verif.CallTarget(rw, req, err)
+	verif.Ensures(verif.CallCount("ResponseWriter).WriteHeader") == 1, "exactly_one_status")
+	timeout := isNet && verif.Called("net.Error).Timeout") && verif.RetBool("net.Error).Timeout", 0)
+	_ = ne
+	if timeout {
+		verif.Ensures(verif.CalledWith("ResponseWriter).WriteHeader", 1, http.StatusGatewayTimeout) && !verif.Called("ResponseWriter).Write$"), "timeout_answers_504")
+	} else {
+		verif.Ensures(verif.CalledWith("ResponseWriter).WriteHeader", 1, http.StatusNotFound) && verif.Called("vhost.getNotFoundPageContent") && verif.Same(verif.NthArg[[]byte]("ResponseWriter).Write$", 0, 1), verif.Ret[[]byte]("vhost.getNotFoundPageContent", 0)), "other_failures_answer_404_with_the_not_found_page")
+	}
+}
+
+// NewHTTPReverseProxy: the response-header timeout is the configured one
+// (60 s when not positive).
+//
+//verif:contract ~/pkg/util/vhost.NewHTTPReverseProxy
+//verif:props C02
+func verif_NewHTTPReverseProxy(option HTTPReverseProxyOptions, vhostRouter *Routers) {
+	rp := NewHTTPReverseProxy(option, vhostRouter)
+	want := time.Duration(option.ResponseHeaderTimeoutS) * time.Second
+	if option.ResponseHeaderTimeoutS <= 0 {
+		want = 60 * time.Second
+	}
+	verif.Ensures(rp != nil && rp.responseHeaderTimeout == want && rp.vhostRouter == vhostRouter, "timeout_and_router_as_configured")
 }
